@@ -331,4 +331,4 @@ def run(report, tier):
                  "(i) all attribute token words over %s on four item kinds; (ii) %d misuse / unsupported-item cases x 2 macro names; "
                  "(iii) trait-method pattern words over %s x body x delegation kinds %s; non-trivial = non-empty word / any misuse case"
                  % (TOKENS, len(MISUSE), list(PATS), list(DELEG)))
-    evaluate(states, report, tier)
+    common.evaluate_chunked(evaluate, states, report, tier)
